@@ -161,6 +161,23 @@ func runC02(c *Ctx) {
 	func() {
 		checkWiring(c, p, rule, sq, "Query", map[string]string{"ID": "Query.QueryID", "Body": "Query.Body", "Secret": "Query.Secret", "Parameters": "Query.Parameters", "Compression": "Client.compression"})
 		checkWiring(c, p, rule, sq, "ClientInfo", map[string]string{"ProtocolVersion": "Client.protocolVersion", "InitialUser": "Query.InitialUser", "InitialQueryID": "Query.QueryID", "QuotaKey": "Query.QuotaKey"})
+		// the caller's Query is not rewritten from connection state on the way (q.QuotaKey = c.quotaKey under some
+		// condition would pass the literal check above, which sees a load of the Query field)
+		for _, b := range sq.Blocks {
+			for _, in := range b.Instrs {
+				st, ok := in.(*ssa.Store)
+				if !ok {
+					continue
+				}
+				fa, ok := st.Addr.(*ssa.FieldAddr)
+				if !ok || !core.IsNamed(derefType(fa.X.Type()), core.PkgCh, "Query") {
+					continue
+				}
+				if o := core.FieldOrigin(st.Val, 0); strings.HasPrefix(o, "Client.") {
+					c.R.Bad(rule, "literal/Query."+fieldNameOnly(fa.X.Type(), fa.Field)+"/overwritten", cfg, p.Pos(st.Pos()), sprintf("sendQuery overwrites the caller's Query.%s with %s before encoding it", fieldNameOnly(fa.X.Type(), fa.Field), o))
+				}
+			}
+		}
 		// Settings <- the settings builder: whatever library function produces the value stored there
 		var qs *ssa.Function
 		var qsCall *ssa.Call
@@ -328,6 +345,16 @@ func runC02(c *Ctx) {
 						}
 						return bnd != nil && isParamCell(eb, bnd, "tableName")
 					}, false) {
+						okTN = true
+					}
+				}
+			}
+		}
+		if !okTN {
+			// ... or in a helper of package ch that is handed the name
+			for _, prm := range eb.Params {
+				if prm.Name() == "tableName" {
+					if _, found, fromArg, _ := headerEncoding(eb, prm); found && fromArg {
 						okTN = true
 					}
 				}
@@ -690,6 +717,7 @@ func runC02(c *Ctx) {
 	ruleCompressDst(c, p, "C02.dst")
 	ruleForwardAll(c, p, "C02.forward-all")
 	ruleHeaderPerBlock(c, p, "C02.header-per-block")
+	ruleInferByName(c, p, "C02.infer-name")
 	ruleExternalPresence(c, p, "C02.external-presence")
 	if roles := resolveDo(c, p); roles != nil {
 		ruleDiscard(c, p, roles, "C02")
